@@ -234,6 +234,9 @@ func (c *c18) logout(ch *kernel.Chooser) string {
 		return desc
 	}
 	c.o.Probe("logout-redirect")
+	if w.Caps.EndFromRequest {
+		c.o.Probe("logout-through-the-storage's-request-capability")
+	}
 	if h.expired && h.kind == "genuine" {
 		c.o.Probe("expired-hint-accepted")
 	}
